@@ -224,6 +224,21 @@ def readings(ev_all):
     return out, amb
 
 
+def cf_estimand_ok(label, expr, ref: RG, outcomes_ev, conditions_ev) -> bool:
+    """Silent version of judge_cf_estimand: would the expression be accepted?"""
+    n0 = len(kernel.LOG.violations)
+    saved = dict(kernel.LOG.counters)
+    saved_facts = dict(FACTS)
+    judge_cf_estimand("_probe", label, expr, ref, outcomes_ev, conditions_ev, {}, lambda kind: None)
+    ok = len(kernel.LOG.violations) == n0
+    del kernel.LOG.violations[n0:]
+    kernel.LOG.counters.clear()
+    kernel.LOG.counters.update(saved)
+    FACTS.clear()
+    FACTS.update(saved_facts)
+    return ok
+
+
 def judge_cf_estimand(prop, label, expr, ref: RG, outcomes_ev, conditions_ev, case, mech_fn):
     """⟦expr⟧ (event values for outcome variables, literal subscripts, Sum-bound override, universal
     reading of unvalued free variables) must equal P(out ∧ cond) / P(cond) in every sampled model."""
@@ -274,7 +289,10 @@ def judge_cf_estimand(prop, label, expr, ref: RG, outcomes_ev, conditions_ev, ca
     FACTS["captured_event_subscript"] = bool(bound_names(expr) & {i for _, w, _ in ev_all for i, _ in w})
     if captured:
         kernel.count(f"{prop}:sum-bound-subscript-cases")
-    for r, sum_binds in [(r, sb) for r in rds for sb in ((True, False) if captured else (True,))]:
+    # (a reading that ignores the binding altogether was tried and dropped: it accepted Sum[Z](P[X,Z](Y)*P(Z)) as an
+    # answer to P(Y_{x,z}=y | x), i.e. it was lenient enough to hide a seeded defect; an estimand in which one name
+    # is an index in one factor and the event's fixed value in another is the listed capture finding)
+    for r, sum_binds in [(r, True) for r in rds]:
         universal = sorted(fv - set(r))
         bad = None
         for h, m, rv, av in mv:
@@ -524,7 +542,9 @@ def classify_idcstar(kind):
         return "idcstar.condition-value-lost"
     if FACTS.get("conditional_rebinds"):
         return "idcstar.conditional-rebinds-bound-variable"
-    if FACTS.get("shared_base_outcome_condition"):
+    if FACTS.get("shared_base_outcome_condition") and any(FACTS.get("rule2", [])):
+        # (the listed failure needs a rule-2 exchange of the shared variable: the conditions run empty and the
+        # un-normalised ID* estimand is returned)
         return "idcstar.outcome-and-condition-share-a-variable"
     if FACTS.get("exchange_with_other_conditions"):
         return "idcstar.rule2-ignores-other-conditions"
@@ -549,6 +569,7 @@ def _post_conditional_flag(snap, res, self, ranges):
         over = {c.name for c in self._iter_variables()} - rn
         if over & bound_names(self):
             FACTS["conditional_rebinds"] = True
+            FACTS["conditional_operand"] = (self, set(rn))
         FACTS["conditional_called"] = True
     except Exception:  # noqa: BLE001
         pass
@@ -612,6 +633,22 @@ def _finish_idcstar(snap, res, exc):
                          f"impossible in every model: {derivation[-3:]}; graph {case['graph']}", case=case,
                          mech=classify_idcstar("answer-impossible"))
         return
+    if FACTS.get("conditional_rebinds") and FACTS.get("conditional_operand") is not None:
+        # the listed re-binding mechanism explains a wrong answer only if the SAME numerator, normalised over its free
+        # variables alone, is right; otherwise something else is wrong as well and the key must not swallow it
+        from y0.dsl import Fraction as YF
+        from y0.dsl import Sum, Variable
+
+        operand, keep = FACTS["conditional_operand"]
+        try:
+            over = sorted(free_variables(operand) - keep)
+            den = Sum.safe(operand, [Variable(n) for n in over]) if over else operand
+            repaired = YF(operand, den)
+            if not cf_estimand_ok("idc_star", repaired, ref, out, cond):
+                FACTS["conditional_rebinds"] = False
+                kernel.count("C08:rebinding-does-not-explain-the-error")
+        except Exception:  # noqa: BLE001
+            pass
     judge_cf_estimand("C08", "idc_star", res, ref, out, cond, case, classify_idcstar)
     bad = mixed_world_terms(res)
     kernel.count("C06:idcstar-estimands-walked")
